@@ -109,7 +109,7 @@ def routeCall (j : Json) : Except String Json := do
     | "kraus" => pure (Routing.actKraus info lay c entry T)
     | "measure" => pure (Routing.actMeasure lay (getL "M") (getL "survivors"))
     | "trace_out" => pure (Routing.actTraceOut info lay c entry T)
-    | "resize" => pure (Routing.actResize lay (T.headD 0))
+    | "resize" => pure (Routing.actResize lay (T.headD 0) ((call.getObjVal? "shrink").toOption.bind (·.getBool?.toOption) |>.getD false))
     | "povm" => pure (Routing.cePovm lay c T)
     | "front" => pure (Routing.memberFront lay (T.headD 0) true)
     | "env_combine" => pure (Routing.envCombine lay (T.headD 0) (T.getD 1 0))
